@@ -78,7 +78,7 @@ def build_driver(chk):
 def run_model(chk, kind, cases, shards=None):
     """Run the extracted model on harness cases (dicts with "kind").  Returns a list of result
     dicts aligned with `cases`, or None when the model cannot be run (a broken tie is recorded)."""
-    if kind not in ("dec_stream", "dec_subset", "struct", "spec_stream"):
+    if kind not in ("dec_stream", "dec_subset", "struct", "spec_stream", "enc_stream"):
         return None
     exe = build_driver(chk)
     if exe is None:
@@ -257,3 +257,44 @@ def run_mutants(chk, profiles=("release",), count=None):
                     chk.violation(key, "checksum-valid malformed stream (%s, %s build): implementation %s, model %s — %s" % (
                         m["mutation"], prof, c["end"], r.get("end"), dis), {"bytes": m["bytes"], "mutation": m["mutation"], "impl": c["end"], "model": r.get("end")})
     return stats
+
+
+def encoder_model_tie(chk, cases):
+    """Correspondence of the ENCODER model (Coq Enc.enc_frame, extracted) with the implementation:
+    for every enc_stream case (a file the encoder produced + its PCM + options) the model must
+    reproduce every frame byte for byte (LPC parameters are an oracle read from the file; for
+    exhaustive stereo with LPC, where unchosen candidates are unknown, every subframe must be what
+    Enc.enc_sub produces for the announced channel signals).  A mismatch is a broken tie (the
+    theorems C01_encoder_* are about a model the code no longer follows), reported with the input."""
+    sel = [c for c in cases if c.get("kind") == "enc_stream" and isinstance(c.get("cfg"), dict)]
+    out = {"encoder_model_files": 0, "encoder_model_frames": 0, "encoder_model_frames_byte_exact": 0,
+           "encoder_model_frames_subframe_exact": 0, "encoder_model_files_lpc_off": 0, "encoder_model_mismatching_files": 0}
+    if not sel:
+        return out
+    res = run_model(chk, "enc_stream", sel)
+    if res is None:
+        return out
+    bad = 0
+    for c, r in zip(sel, res):
+        out["encoder_model_files"] += 1
+        if r is None or r.get("end") != "ok":
+            why = "model: %s" % (r or {}).get("end")
+        else:
+            out["encoder_model_frames"] += r["frames"]
+            out["encoder_model_frames_byte_exact"] += r["frame_match"]
+            out["encoder_model_frames_subframe_exact"] += r["subs_match"]
+            if not r["lpc"]:
+                out["encoder_model_files_lpc_off"] += 1
+            why = None
+            if "first_mismatch" in r:
+                fm = r["first_mismatch"]
+                why = "frame %d: %s differs (model %s... / implementation %s...)" % (fm["frame"], fm["what"], fm["model"][:60], fm["actual"][:60])
+        if why:
+            bad += 1
+            if bad <= 3:
+                chk.violation("tie:encoder-model-correspondence",
+                              "the encoder no longer produces what the Coq model of the encoder (Enc.enc_frame, theorems C01_encoder_*) produces: %s" % why,
+                              {"stage": "encoder-model-correspondence", "theorem": "C01_encoder_frame_lossless / C02_encoder_frame_valid (coq/codec/Props_codec.v)",
+                               "file_hex": c["bytes"], "pcm": c["expect"], "cfg": c["cfg"], "model": r}, no_input=True)
+    out["encoder_model_mismatching_files"] = bad
+    return out
